@@ -1,1 +1,303 @@
-// harness for rs/anda_cognitive_nexus/src/governance/rows.rs (mounted by #[cfg(kani)] hook)
+// @module governance::rows::verif_kani
+// Kani harnesses for rs/anda_cognitive_nexus/src/governance/rows.rs — property C19, attenuation
+// helpers ("a delegation never confers more than its delegator holds"): narrows, at_least,
+// at_most, within_ceiling, AuthorityConstraints::contains. Oracles are written over the
+// *admitted values* (what the child admits the parent must admit), not over list shapes.
+use super::*;
+include!("/verif/harness/common.rs");
+
+/// one-byte label with a symbolic byte in a..c (equal and unequal labels both occur)
+fn lab() -> String {
+    let b: u8 = kani::any();
+    kani::assume(b >= b'a' && b <= b'c');
+    unsafe { String::from_utf8_unchecked(vec![b]) }
+}
+/// list of 0..2 labels
+fn list() -> Vec<String> {
+    let n: u8 = kani::any();
+    kani::assume(n <= 2);
+    match n {
+        0 => vec![],
+        1 => vec![lab()],
+        _ => vec![lab(), lab()],
+    }
+}
+/// "empty means everything" reading of a bound list, written independently of the code
+fn admits(bound: &[String], value: &str) -> bool {
+    if bound.is_empty() {
+        return true;
+    }
+    if value.is_empty() {
+        return false;
+    }
+    let mut i = 0;
+    let mut hit = false;
+    while i < bound.len() {
+        if bound[i].as_bytes()[0] == value.as_bytes()[0] {
+            hit = true;
+        }
+        i += 1;
+    }
+    hit
+}
+
+// @check id=C19 tier=quick cap=600 role=narrows_attenuates
+// @fns governance::rows::narrows
+// @bound parent and child lists of 0..2 one-byte labels (symbolic bytes a..c); value "" or a one-byte label
+#[kani::proof]
+#[kani::unwind(4)]
+fn c19_narrows_implies_child_admits_subset() {
+    let parent = list();
+    let child = list();
+    let value = if kani::any() { String::new() } else { lab() };
+    if narrows(&parent, &child) && admits(&child, &value) {
+        assert!(admits(&parent, &value), "whatever the narrowed child admits, the parent admits");
+    }
+    // an unrestricted (empty) child never narrows a restricted parent
+    if !parent.is_empty() && child.is_empty() {
+        assert!(!narrows(&parent, &child), "'every value' is not a narrowing of a bounded list");
+    }
+    // completeness on the subset reading, so the check cannot be satisfied by refusing everything
+    if parent.is_empty() {
+        assert!(narrows(&parent, &child), "anything narrows an unrestricted parent");
+    }
+    kani::cover!(narrows(&parent, &child) && parent.len() == 2 && child.len() == 1, "strict subset accepted");
+    kani::cover!(!narrows(&parent, &child) && child.len() == 2 && parent.len() == 2, "non-subset rejected");
+    std::mem::forget((parent, child, value));
+}
+
+/// two-byte symbolic "instant" — the kernels compare instants as strings; RFC 3339 UTC stamps of
+/// fixed width order lexicographically, which is the only thing the code relies on.
+fn instant() -> String {
+    let a: u8 = kani::any();
+    let b: u8 = kani::any();
+    kani::assume(a >= b'0' && a <= b'9' && b >= b'0' && b <= b'9');
+    unsafe { String::from_utf8_unchecked(vec![a, b]) }
+}
+fn opt_instant() -> String {
+    if kani::any() { String::new() } else { instant() }
+}
+
+// @check id=C19 tier=quick cap=600 role=validity_window_attenuates
+// @fns governance::rows::at_least, governance::rows::at_most
+// @bound parent/child bounds: "" or any two-digit string; now: any two-digit string
+// @assume instants are fixed-width RFC 3339 UTC strings, so lexicographic order is chronological order
+#[kani::proof]
+#[kani::unwind(4)]
+fn c19_validity_window_never_widens() {
+    let (pf, cf, pu, cu) = (opt_instant(), opt_instant(), opt_instant(), opt_instant());
+    let now = instant();
+    let in_window = |from: &str, until: &str| (from.is_empty() || now.as_str() >= from) && (until.is_empty() || now.as_str() < until);
+    if at_least(&pf, &cf) && at_most(&pu, &cu) && in_window(&cf, &cu) {
+        assert!(in_window(&pf, &pu), "a child window accepted by at_least/at_most lies inside the parent window");
+    }
+    if !pu.is_empty() && cu.is_empty() {
+        assert!(!at_most(&pu, &cu), "a child that never expires cannot hang off a parent that does");
+    }
+    if !pf.is_empty() && cf.is_empty() {
+        assert!(!at_least(&pf, &cf), "a child with no start cannot hang off a parent that has one");
+    }
+    kani::cover!(at_most(&pu, &cu) && !pu.is_empty() && cu.as_str() < pu.as_str(), "strictly shorter child accepted");
+    kani::cover!(!at_most(&pu, &cu) && !cu.is_empty(), "child outliving its parent rejected");
+    std::mem::forget((pf, cf, pu, cu, now));
+}
+
+const CLASS_LABELS: [&str; 7] = ["", "public", "internal", "private", "sensitive", "secret", "zz"];
+const AUTH_LABELS: [&str; 6] = ["", "descriptive", "advisory", "behavioral", "executable", "zz"];
+
+// fields / result cap / export: symbolic lists and integers, ceilings left unstated
+// @check id=C19 tier=quick cap=900 role=constraints_attenuate_fields_results_export
+// @fns governance::rows::AuthorityConstraints::contains, governance::rows::narrows
+// @bound parent/child: field lists of 0..2 one-byte labels (symbolic), max_results None or any u64, export symbolic; ceilings "" on both sides; probe field: any label
+#[kani::proof]
+#[kani::unwind(4)]
+fn c19_constraints_contains_attenuates_fields_results_export() {
+    let parent = AuthorityConstraints {
+        fields: list(),
+        max_results: if kani::any() { Some(kani::any()) } else { None },
+        max_influence_authority: String::new(),
+        max_classification: String::new(),
+        export: kani::any(),
+    };
+    let child = AuthorityConstraints {
+        fields: list(),
+        max_results: if kani::any() { Some(kani::any()) } else { None },
+        max_influence_authority: String::new(),
+        max_classification: String::new(),
+        export: kani::any(),
+    };
+    let field = lab();
+    let contained = parent.contains(&child);
+    if contained {
+        if admits(&child.fields, &field) {
+            assert!(admits(&parent.fields, &field), "child returns no field the parent withholds");
+        }
+        if let Some(p) = parent.max_results {
+            assert!(matches!(child.max_results, Some(c) if c <= p), "child result cap is not larger (and not absent)");
+        }
+        assert!(parent.export || !child.export, "export is never gained");
+    }
+    // not vacuous by over-refusal: an identical child is always contained
+    kani::cover!(contained && parent.max_results.is_some() && !parent.fields.is_empty(), "contained under a bounded parent");
+    kani::cover!(!contained && parent.export && parent.fields.is_empty(), "refused on the result cap alone");
+    kani::cover!(!contained && !parent.export && child.export, "refused on export");
+    std::mem::forget((parent, child, field));
+}
+
+fn sel_class(i: u8) -> &'static str {
+    match i % 7 {
+        0 => CLASS_LABELS[0],
+        1 => CLASS_LABELS[1],
+        2 => CLASS_LABELS[2],
+        3 => CLASS_LABELS[3],
+        4 => CLASS_LABELS[4],
+        5 => CLASS_LABELS[5],
+        _ => CLASS_LABELS[6],
+    }
+}
+fn sel_auth(i: u8) -> &'static str {
+    match i % 6 {
+        0 => AUTH_LABELS[0],
+        1 => AUTH_LABELS[1],
+        2 => AUTH_LABELS[2],
+        3 => AUTH_LABELS[3],
+        4 => AUTH_LABELS[4],
+        _ => AUTH_LABELS[5],
+    }
+}
+
+// ceilings: the helper every ceiling comparison goes through, over the label classes (every
+// defined label, "", one unknown representative; the *_rank_ladder_* harnesses decide that all
+// unknown labels rank alike).
+// @check id=C19 tier=quick cap=900 role=within_ceiling_attenuates
+// @fns governance::rows::within_ceiling, governance::classification::rank, governance::authority::rank
+// @bound parent ceiling, child ceiling, resource classification: each a symbolic choice among every defined label, "" and an unknown label (7x7x7 and 6x6)
+#[kani::proof]
+#[kani::unwind(14)]
+fn c19_within_ceiling_attenuates() {
+    use crate::governance::{authority, classification};
+    let (p, c, r) = (sel_class(kani::any()), sel_class(kani::any()), sel_class(kani::any()));
+    let w = within_ceiling(p, c, classification::rank);
+    let (rp, rc, rr) = (classification::rank(p), classification::rank(c), classification::rank(r));
+    let reaches_child = c.is_empty() || rr <= rc;
+    let reaches_parent = p.is_empty() || rr <= rp;
+    if w && reaches_child {
+        assert!(reaches_parent, "a resource under the child's classification ceiling is under the parent's");
+    }
+    if !p.is_empty() && c.is_empty() {
+        assert!(!w, "an unbounded child ceiling is never within a stated parent ceiling");
+    }
+    if p.is_empty() || (!c.is_empty() && rc <= rp) {
+        assert!(w, "a child ceiling at or below the parent's is accepted");
+    }
+    let (pa, ca) = (sel_auth(kani::any()), sel_auth(kani::any()));
+    let wa = within_ceiling(pa, ca, authority::rank);
+    if wa && !pa.is_empty() {
+        assert!(!ca.is_empty() && authority::rank(ca) <= authority::rank(pa), "influence ceiling not raised or dropped");
+    }
+    kani::cover!(w && !p.is_empty() && rc < rp, "strictly lower child ceiling accepted");
+    kani::cover!(!w && !c.is_empty(), "higher child ceiling refused");
+    kani::cover!(wa && !pa.is_empty(), "influence ceiling contained");
+}
+
+/// "" or one of two equal-length labels, as a String with symbolic *content*
+fn two_label(a: &'static [u8], b: &'static [u8]) -> String {
+    if kani::any() {
+        return String::new();
+    }
+    let pick: bool = kani::any();
+    let mut v = Vec::with_capacity(a.len());
+    let mut i = 0;
+    while i < a.len() {
+        v.push(if pick { a[i] } else { b[i] });
+        i += 1;
+    }
+    unsafe { String::from_utf8_unchecked(v) }
+}
+
+// contains() wires the ceilings through within_ceiling in the right direction with the right rank
+// @check id=C19 tier=quick cap=900 role=constraints_contains_ceilings_wired
+// @fns governance::rows::AuthorityConstraints::contains, governance::rows::within_ceiling
+// @bound parent/child max_classification in {"", public, secret}, max_influence_authority in {"", behavioral, executable} (symbolic choice, equal-length labels); other constraints unstated
+#[kani::proof]
+#[kani::unwind(14)]
+fn c19_constraints_contains_wires_ceilings() {
+    use crate::governance::{authority, classification};
+    let parent = AuthorityConstraints {
+        max_classification: two_label(b"public", b"secret"),
+        max_influence_authority: two_label(b"behavioral", b"executable"),
+        ..Default::default()
+    };
+    let child = AuthorityConstraints {
+        max_classification: two_label(b"public", b"secret"),
+        max_influence_authority: two_label(b"behavioral", b"executable"),
+        ..Default::default()
+    };
+    let contained = parent.contains(&child);
+    let ok = |p: &str, c: &str, rank: fn(&str) -> u8| p.is_empty() || (!c.is_empty() && rank(c) <= rank(p));
+    let expect = ok(&parent.max_classification, &child.max_classification, classification::rank)
+        && ok(&parent.max_influence_authority, &child.max_influence_authority, authority::rank);
+    assert!(contained == expect, "contains == both ceilings stay under the parent's (other constraints unstated)");
+    kani::cover!(contained && !parent.max_classification.is_empty() && !parent.max_influence_authority.is_empty(), "contained under two stated ceilings");
+    kani::cover!(!contained && child.max_classification.len() == 6 && parent.max_classification.len() == 6, "secret child under public parent refused");
+    std::mem::forget((parent, child));
+}
+
+fn known_differs<const N: usize>(buf: &[u8; N], known: &[&str]) -> bool {
+    let mut k = 0;
+    let mut ok = true;
+    while k < known.len() {
+        if known[k].len() == N {
+            let mut same = true;
+            let mut j = 0;
+            while j < N {
+                if known[k].as_bytes()[j] != buf[j] {
+                    same = false;
+                }
+                j += 1;
+            }
+            if same {
+                ok = false;
+            }
+        }
+        k += 1;
+    }
+    ok
+}
+
+// @check id=C19 tier=quick cap=600 role=strength_and_assurance_ladders
+// @fns governance::rows::auth_strength::rank, governance::rows::purpose_assurance::rank
+// @bound every defined name (concrete) and every other string of length 0, 1, 4, 6, 8 (symbolic bytes)
+#[kani::proof]
+#[kani::unwind(15)]
+fn c19_unknown_strength_or_assurance_satisfies_no_bar() {
+    assert!(auth_strength::rank(auth_strength::NONE) < auth_strength::rank(auth_strength::STANDARD)
+        && auth_strength::rank(auth_strength::STANDARD) < auth_strength::rank(auth_strength::STRONG), "auth strength ladder");
+    assert!(purpose_assurance::rank(purpose_assurance::DECLARED) < purpose_assurance::rank(purpose_assurance::SESSION_BOUND)
+        && purpose_assurance::rank(purpose_assurance::SESSION_BOUND) < purpose_assurance::rank(purpose_assurance::SYSTEM_BOUND)
+        && purpose_assurance::rank(purpose_assurance::SYSTEM_BOUND) < purpose_assurance::rank(purpose_assurance::APPROVED), "purpose assurance ladder");
+    let s_known = [auth_strength::STANDARD, auth_strength::STRONG];
+    let p_known = [purpose_assurance::SESSION_BOUND, purpose_assurance::SYSTEM_BOUND, purpose_assurance::APPROVED];
+    let u1: [u8; 1] = kani::any();
+    let u4: [u8; 4] = kani::any();
+    let u6: [u8; 6] = kani::any();
+    let u8_: [u8; 8] = kani::any();
+    kani::assume(u1[0] < 0x80 && u4[0] < 0x80 && u4[1] < 0x80 && u4[2] < 0x80 && u4[3] < 0x80);
+    kani::assume(u6[0] < 0x80 && u6[1] < 0x80 && u6[2] < 0x80 && u6[3] < 0x80 && u6[4] < 0x80 && u6[5] < 0x80);
+    kani::assume(u8_[0] < 0x80 && u8_[1] < 0x80 && u8_[2] < 0x80 && u8_[3] < 0x80 && u8_[4] < 0x80 && u8_[5] < 0x80 && u8_[6] < 0x80 && u8_[7] < 0x80);
+    let (s1, s4, s6, s8) = unsafe { (std::str::from_utf8_unchecked(&u1), std::str::from_utf8_unchecked(&u4), std::str::from_utf8_unchecked(&u6), std::str::from_utf8_unchecked(&u8_)) };
+    assert!(auth_strength::rank("") == 0 && purpose_assurance::rank("") == 0, "absent = lowest");
+    assert!(auth_strength::rank(s1) == 0 && purpose_assurance::rank(s1) == 0, "1-byte names are unknown");
+    assert!(auth_strength::rank(s4) == 0 && purpose_assurance::rank(s4) == 0, "4-byte names are unknown or 'none'");
+    if known_differs(&u6, &s_known) {
+        assert!(auth_strength::rank(s6) == 0, "a 6-byte name other than 'strong' satisfies no bar");
+    }
+    if known_differs(&u8_, &s_known) {
+        assert!(auth_strength::rank(s8) == 0, "an 8-byte name other than 'standard' satisfies no bar");
+    }
+    if known_differs(&u8_, &p_known) {
+        assert!(purpose_assurance::rank(s8) == 0, "an 8-byte name other than 'approved' satisfies no bar");
+    }
+    kani::cover!(u6[0] == b'S' && u6[1] == b't' && u6[5] == b'g', "'Strong'-like variant inside the bound");
+    kani::cover!(!known_differs(&u8_, &p_known), "'approved' itself inside the bound");
+}
